@@ -12,7 +12,7 @@ import (
 
 func init() {
 	Register("C07", "Decides structural necessary conditions of allOf inheritance: (eq) equality methods of constraints read every field that carries meaning - violated by AdditionalProperties.IsEqual, known finding; (copy) inherited children are deep copies marked with the source type; (req) required keys of the source are propagated; (cycle) the compile recursion is guarded by test-insert-recurse-delete; (refuse) each documented refusal is raised on its guard; (det) no map-order dependence in the allOf compiler. Does NOT decide the merged key set for arbitrary inheritance DAGs nor OpenAPI listing equality.",
-		c07eq, c07copy, c07share, c07oalist, c07index, addChildOrderRule("C07.addorder"), unnamedOnlyRule("C07.unnamedonly"), oncePanicRule("C07.oncepanic"), presizeRule("C07.presize"), walkKindsRule("C07.walkkinds"), c07req, c07cycle, c07refuse, c07walk, func(c *core.Ctx) {
+		c07eq, c07copy, c07share, c07oalist, c07index, addChildOrderRule("C07.addorder"), unnamedOnlyRule("C07.unnamedonly"), inheritAllRule("C07.inheritall"), oncePanicRule("C07.oncepanic"), presizeRule("C07.presize"), walkKindsRule("C07.walkkinds"), c07req, c07cycle, c07refuse, c07walk, func(c *core.Ctx) {
 			runMapRange(c, "C07.det", []string{"allOfConstraintCompiler", "CompileAllOf", "AddUnnamedTypes"}, 3)
 		})
 }
@@ -64,8 +64,9 @@ func c07eq(c *core.Ctx) {
 	}
 }
 
-func c07copy(c *core.Ctx) {
-	const R = "C07.copy"
+func c07copy(c *core.Ctx) { c07copyAs(c, "C07.copy") }
+
+func c07copyAs(c *core.Ctx, R string) {
 	c.Rule(R, "extendWith adds to the inheriting object the result of Copy() of each source child, after SetInheritedFrom(name) on that copy; every Node.Copy re-creates its baseNode through baseNode.Copy (fresh Constraints) and, for nodes with children, a fresh children slice filled with copies: no child or constraint set is shared between the type and its users")
 	c.Floor(R, 7)
 	d := c.P.FindDecl("(*notations/jschema/loader.allOfConstraintCompiler).extendWith")
